@@ -2310,3 +2310,115 @@ func isRectHeight(info *types.Info, fd *ast.FuncDecl, e ast.Expr) bool {
 	})
 	return n > 0 && n == good
 }
+
+// E6ScannerColorMemo: a remembered scanner colour is forgotten wherever the scanner gets another paint.
+func E6ScannerColorMemo(c *core.Ctx, r *core.Report) {
+	r.Rule("E6.scanner-color-memo", "the rasterizer hands every paint to its scanner with SetColor. If some function skips that call when the colour equals a remembered one (a comparison of the argument with a field of the Rasterizer guards the call), the field has to say what the scanner holds: every other call of the scanner's SetColor in the package — the gradient branches pass a colour function — is accompanied, in the same block, by an assignment to that field. Otherwise a solid colour drawn after a gradient, the same as the one drawn before it, skips SetColor and is painted with the gradient (no such memo exists today: expected count zero, the rule then only counts the SetColor calls)")
+	p := c.MustPkg("renderers/rasterizer")
+	info := p.TypesInfo
+	isSetColor := func(call *ast.CallExpr) bool {
+		se, ok := call.Fun.(*ast.SelectorExpr)
+		if !ok || se.Sel.Name != "SetColor" {
+			return false
+		}
+		f := core.CalleeOf(info, call)
+		return f != nil && f.Pkg() != nil && strings.Contains(f.Pkg().Path(), "scanx")
+	}
+	// memo helpers: a comparison with a receiver field guards a SetColor call
+	memoField := map[*types.Var]string{}
+	helper := map[*ast.FuncDecl]bool{}
+	for _, fd := range core.AllFuncDecls(p) {
+		if fd.Body == nil || fd.Recv == nil || len(fd.Recv.List[0].Names) == 0 {
+			continue
+		}
+		recv := info.Defs[fd.Recv.List[0].Names[0]]
+		ast.Inspect(fd.Body, func(m ast.Node) bool {
+			is, ok := m.(*ast.IfStmt)
+			if !ok {
+				return true
+			}
+			be, ok := core.Unparen(is.Cond).(*ast.BinaryExpr)
+			if !ok || (be.Op != token.EQL && be.Op != token.NEQ) {
+				return true
+			}
+			var fv *types.Var
+			for _, side := range []ast.Expr{be.X, be.Y} {
+				if se, ok := core.Unparen(side).(*ast.SelectorExpr); ok {
+					if id, ok := core.Unparen(se.X).(*ast.Ident); ok && core.ObjOf(info, id) == recv {
+						if s := info.Selections[se]; s != nil && s.Kind() == types.FieldVal {
+							fv, _ = s.Obj().(*types.Var)
+						}
+					}
+				}
+			}
+			if fv == nil {
+				return true
+			}
+			guards := false
+			ast.Inspect(is, func(k ast.Node) bool {
+				if call, ok := k.(*ast.CallExpr); ok && isSetColor(call) {
+					guards = true
+				}
+				return true
+			})
+			if guards {
+				memoField[fv] = core.FuncName(fd)
+				helper[fd] = true
+			}
+			return true
+		})
+	}
+	n := 0
+	for _, fd := range core.AllFuncDecls(p) {
+		if fd.Body == nil || helper[fd] {
+			continue
+		}
+		var visit func(b *ast.BlockStmt)
+		visit = func(b *ast.BlockStmt) {
+			for _, st := range b.List {
+				// direct statements of this block
+				if es, ok := st.(*ast.ExprStmt); ok {
+					if call, ok := es.X.(*ast.CallExpr); ok && isSetColor(call) {
+						n++
+						for fv, hname := range memoField {
+							key := fmt.Sprintf("renderers/rasterizer.%s|SetColor #%d keeps %s up to date", core.FuncName(fd), n, fv.Name())
+							updates := false
+							for _, st2 := range b.List {
+								if as, ok := st2.(*ast.AssignStmt); ok {
+									for _, l := range as.Lhs {
+										if se, ok := core.Unparen(l).(*ast.SelectorExpr); ok {
+											if s := info.Selections[se]; s != nil && s.Obj() == types.Object(fv) {
+												updates = true
+											}
+										}
+									}
+								}
+							}
+							if updates {
+								r.OK("E6.scanner-color-memo", key, c.Pos(call.Pos()), "")
+							} else {
+								r.Fail("E6.scanner-color-memo", key, c.Pos(call.Pos()), fmt.Sprintf("`%s` gives the scanner another paint without touching `%s`, which %s trusts to skip SetColor: the next solid colour equal to the remembered one is drawn with this paint", c.Src(call), fv.Name(), hname))
+							}
+						}
+					}
+				}
+				ast.Inspect(st, func(k ast.Node) bool {
+					if bb, ok := k.(*ast.BlockStmt); ok {
+						visit(bb)
+						return false
+					}
+					if _, ok := k.(*ast.FuncLit); ok {
+						return false
+					}
+					return true
+				})
+			}
+		}
+		visit(fd.Body)
+	}
+	r.Count("E6.scanner-setcolor-calls", n)
+	r.Floor("E6.scanner-setcolor-calls", 1)
+	if len(memoField) == 0 {
+		r.OK("E6.scanner-color-memo", "renderers/rasterizer|no remembered scanner colour", c.Pos(p.Syntax[0].Pos()), fmt.Sprintf("%d SetColor calls, none of them skipped on a remembered value", n))
+	}
+}
